@@ -1,6 +1,8 @@
 package e2e
 
 import (
+	"sort"
+	"sync"
 	"net"
 	"regexp"
 	"strings"
@@ -169,6 +171,10 @@ func markerJSON(b []byte) map[string]interface{} {
 
 // exchange sends one request and records everything observed for it.
 func (w *World) exchange(p *pfcpx.Peer, kind string, req map[string]interface{}, raw []byte, expectResp bool, extraQuiet time.Duration) []pfcpx.Dgram {
+	if w.conc != nil {
+		return w.concExchange(p, kind, req, raw, expectResp)
+	}
+
 	p.Drain()
 
 	cmds0 := w.Bess.Snapshot().Cmds
@@ -981,4 +987,133 @@ func (w *World) dropLogCount() int {
 	}
 
 	return strings.Count(w.Agent.Stderr(), "drop packet for existing PFCPconn")
+}
+
+// ---------------------------------------------------------------------------------------------
+// concurrent phases (C11): requests of different peers are in flight at the same time
+
+type concLine struct {
+	ev map[string]interface{}
+	at time.Time
+}
+
+type concRec struct {
+	mu    sync.Mutex
+	lines []concLine
+}
+
+// concExchange is exchange() during a concurrent phase: one request, its answers, no datapath observation (the
+// datapath is observed once, at the end of the phase).
+func (w *World) concExchange(p *pfcpx.Peer, kind string, req map[string]interface{}, raw []byte, expectResp bool) []pfcpx.Dgram {
+	p.Drain()
+
+	logMark := w.dropLogCount()
+	_ = p.SendRaw(raw)
+
+	var ds []pfcpx.Dgram
+
+	if expectResp {
+		got := p.WaitN(1, w.RespWait)
+		if !got && w.dropLogCount() > logMark && w.Agent != nil && w.Agent.Alive() {
+			_ = p.SendRaw(raw) // listed known finding F-LISTENER-DROP: the peer transmits again
+			w.conc.mu.Lock()
+			w.conc.lines = append(w.conc.lines, concLine{ev: map[string]interface{}{"ev": "listenerdrop", "peer": p.Name, "n": 1}, at: time.Now()})
+			w.conc.mu.Unlock()
+
+			p.WaitN(1, w.RespWait)
+		}
+
+		time.Sleep(300 * time.Microsecond) // a superfluous second answer would follow at once
+		ds = p.Drain()
+	}
+
+	at := time.Now()
+	resps := []map[string]interface{}{}
+
+	for _, d := range ds {
+		resps = append(resps, w.respJSON(d))
+	}
+
+	ev := map[string]interface{}{"ev": "req", "kind": kind, "peer": p.Name, "req": req, "resps": resps, "markers": []interface{}{}, "burst": true}
+
+	w.conc.mu.Lock()
+	w.conc.lines = append(w.conc.lines, concLine{ev: ev, at: at})
+	w.Steps++
+
+	if (kind == "estab" || kind == "mod" || kind == "del") && len(ds) >= 1 && ds[0].Cause == 1 {
+		w.Accepted++
+	}
+	w.conc.mu.Unlock()
+
+	return ds
+}
+
+// Concurrently runs the given functions side by side (each drives its own peers through the usual step methods) and
+// then records their steps, in the order in which the answers arrived, with the datapath as it is once all of them
+// have finished and the datapath is quiet: the image is judged at the last line (burst = false), see TraceE2E.
+func (w *World) Concurrently(fns []func()) {
+	w.conc = &concRec{}
+
+	var wg sync.WaitGroup
+
+	for _, fn := range fns {
+		wg.Add(1)
+
+		go func(fn func()) {
+			defer wg.Done()
+			fn()
+		}(fn)
+	}
+
+	wg.Wait()
+
+	rec := w.conc
+	w.conc = nil
+
+	w.dpIdle(10*time.Millisecond, 3*time.Second)
+	time.Sleep(10 * time.Millisecond)
+
+	sort.SliceStable(rec.lines, func(i, j int) bool { return rec.lines[i].at.Before(rec.lines[j].at) })
+
+	lastReq := -1
+
+	for i, ln := range rec.lines {
+		if ln.ev["ev"] == "req" {
+			lastReq = i
+		}
+	}
+
+	obs := map[string]interface{}{}
+	w.dpObs(obs)
+
+	var snap map[string]interface{}
+	if w.SnapEvery {
+		snap = w.snapJSON()
+	}
+
+	for i, ln := range rec.lines {
+		if ln.ev["ev"] == "req" {
+			for k, v := range obs {
+				if k == "writes" && i != lastReq {
+					continue // the update log is attached once
+				}
+
+				ln.ev[k] = v
+			}
+
+			if _, ok := ln.ev["writes"]; !ok && w.P4 != nil {
+				ln.ev["writes"] = []interface{}{}
+			}
+
+			ln.ev["burst"] = i != lastReq
+
+			if snap != nil {
+				ln.ev["snap"] = snap
+			}
+		}
+
+		w.emit(ln.ev)
+	}
+
+	w.CheckAlive()
 }
